@@ -164,6 +164,70 @@ def handle (twice : Bool) : Handler := fun _ args observed =>
       | _, _ => none
   | _ => none
 
-def handlers : List (String × Handler) := [("fw_dist", handle false), ("fw_dist2", handle true)]
+/-- `fw_big` (orders above 1024, at most a few dozen arcs): ORACLE ONLY — the cubic model is not
+run.  The expected matrix is assembled from the single-source oracle (`ssOracle`, i.e. `bfA` =
+`wdistB` by `OraclesFast.h08_ssOracle_eq`) run from the vertices that HAVE out-arcs; the row of
+a vertex without out-arcs is trivially `[inf … 0 … inf]` (no walk but the empty one leaves it), so
+those rows contribute no finite off-diagonal cell.  A negative circuit contains a vertex with
+out-arcs and is reachable from it, so the flags of these sources decide the precondition.
+Observed: `ncells finite diag flatfinite bfm` (see `c08.rs`). -/
+def handleBig : Handler := fun _ args observed =>
+  match args with
+  | [dv] => do
+    let d ← GDesc.parse dv
+    if d.repr != "wi" then none
+    if !validDesc d then
+      pure (classify observed [.a "panic"] none (nt := false) ["invalid-desc"])
+    else
+      let g := d.wgraph
+      if !hypsB g then
+        pure (bad "model digraph violates WF/Functional (driver bug)")
+      else
+      let n := g.n
+      let negArcs := d.warcs.any (fun a => a.2.2 < 0)
+      let tags := [if n > 1024 then "n>1024" else sizeTag n, if negArcs then "neg-arcs" else "nonneg",
+        "oracle-only", "has-inf", "asym-matrix"]
+      let sources := (List.range n).filter (fun u => !(g.out u).isEmpty)
+      let orc := ssOracle g
+      let res := sources.map (fun s => (s, orc s))
+      let negCycle := res.any (·.2.2)
+      match observed with
+      | [.a "panic"] =>
+        pure (classify observed [] (some "panicked on a valid digraph") true (tags ++ ["res-panic"]))
+      | [ncellsV, finiteV, diagV, flatV, bfmV] =>
+        if negCycle then
+          pure (classify observed observed none (nt := false) (tags ++ ["neg-cycle-skipped"]))
+        else
+          let want : List V := res.flatMap (fun r =>
+            (List.range n).filterMap (fun v =>
+              if v == r.1 then none else
+              match ((r.2.1)[v]?).getD none with
+              | none => none
+              | some x => some (V.l [V.ofNat r.1, V.ofNat v, V.i x])))
+          let wantFlat : List V := want.filterMap (fun e =>
+            match e with
+            | .l [.i u, .i v, x] => some (V.l [V.i (u * n + v), x])
+            | _ => none)
+          let pf : Option String :=
+            if ncellsV != V.ofNat (n * n) then some s!"matrix has {ncellsV} cells for order {n}"
+            else if diagV != V.l [] then some s!"diagonal not 0: {diagV}"
+            else if finiteV != V.l want then
+              some ("not-min-walk-weight finite cells differ from the oracle; first difference " ++
+                (match finiteV with
+                 | .l fs =>
+                   let i := ((List.range (max fs.length want.length)).filter (fun i => !(fs[i]? == want[i]?))).head?.getD 0
+                   s!"impl={(fs[i]?).map toString} want={(want[i]?).map toString}"
+                 | _ => "malformed"))
+            else if bfmV != V.l want then some "finite cells differ from the rows of the real BFM"
+            else none
+          -- the flat vector is under correspondence (against the oracle-derived layout) only
+          let model := [ncellsV, finiteV, diagV, V.l wantFlat, bfmV]
+          let _ := flatV
+          pure (classify observed model pf true tags)
+      | _ => none
+  | _ => none
+
+def handlers : List (String × Handler) :=
+  [("fw_dist", handle false), ("fw_dist2", handle true), ("fw_big", handleBig)]
 
 end GraafVerif.Driver.H08
